@@ -143,6 +143,11 @@ int ADtest(int n, double *x, double *outputs)
     outputs[0] = -n+z/n;
     outputs[1] = 1.-AD(n, -n+z/n);
 
+    /* The finite sample correction of AD can step slightly
+     * outside of [0, 1] : keep the pvalue a probability */
+    if(outputs[1]<0.) outputs[1] = 0.;
+    if(outputs[1]>1.) outputs[1] = 1.;
+
     return 0;
  }
 
